@@ -186,7 +186,11 @@ def run_c17(case):
                             out.append(viol("C17", "sampling", "sample-outside-the-set-at-the-fixed-values", "",
                                             worst=float(d.max())))
                 except SimBudgetExceeded:
-                    out.append(viol("C17", "sampling", "draw-budget-exceeded", ""))
+                    row_full = {v: [full[v]] for v, _ in pspace}
+                    if G.acceptance_floor(dom, row_full, rng) < 0.05 or sim.fired:
+                        stats["slow_low_acceptance"] = 1   # legitimate: a nearly empty piece at these values
+                    else:
+                        out.append(viol("C17", "sampling", "draw-budget-exceeded", ""))
                 except Exception as ex:
                     out.append(viol("C17", "sampling", "raises:" + type(ex).__name__, innermost_site(ex.__traceback__),
                                     msg=str(ex)[:160]))
